@@ -29,10 +29,12 @@ func runC12(c *Ctx) {
 	defer c12IllegalChar(c)
 	defer c12OffsetScan(c)
 	tokenStorageFresh(c, "R10")
+	eofTokenPosition(c, "R14")
 	defer c.shared("R13", "C06/R9", "a node's position is that of the token it was parsed from: the parser keeps no node or token beyond the cursor, so nothing parsed earlier is handed out again for a later occurrence", keyHas("parser-state"), runC06)
 	defer c.shared("R12", "C11/R2", "the error reported is the first fault met: the parser hands every error of a sub-parser on unchanged — it does not discard it, rewind and report what a second attempt at the same text finds (a different token, possibly on another line)", func(o Obligation) bool {
 		return !strings.HasPrefix(o.Key, "(*lang.Evaluator)") && !strings.HasPrefix(o.Key, "cli.")
 	}, func(s *Ctx) { c11R2(s, "R2") })
+	defer c.shared("R15", "C13/R6", "an `expected X` error points at the token that was found: the layout flag is read by the statement-end test only — not to move the error to the end of the previous token, which is the newline byte itself when that token ends its line", keyHas("flag-read"), c13NewlineFlag)
 	defer c.shared("R11", "C13/R3", "line N of an error is line N of the program: the lexer scans the text it was given, unchanged (not a trimmed or normalised copy whose offsets differ)", keyHas("lexer-source-unmodified"), runC13)
 	defer c.shared("R9", "C01/R1", "every runtime error carries a position: the errors that leave the interpreter's entry points are SyntaxError / RuntimeError / JsonError values only — a raw error (an unwrapped `unknown variable`) has no line at all", keyHas("entry "), func(s *Ctx) { c01R1(s, scopeAgreement(s, "R2")) })
 	defer c12LineColArithmetic(c)
@@ -917,5 +919,36 @@ func tokenStorageFresh(c *Ctx, rule string) {
 	}
 	if n < 3 {
 		c.undecided(rule, "token-storage-fresh instance-floor", "", fmt.Sprintf("%d stores to the parser's cursor found, 4 expected", n))
+	}
+}
+
+// eofTokenPosition (R14): a syntax error at the end of the program is positioned on the end-of-input
+// token. GetLineAndCol's scan visits the offsets 0 … len(src)-1 only; the offset len(src) falls through
+// to the last line with the column's initial value. The EOF token therefore carries the start of the
+// token before it: Next returns it before it records a new token start.
+func eofTokenPosition(c *Ctx, rule string) {
+	p := c.P
+	nx := p.LangFunc("(*Lexer).Next")
+	if nx == nil {
+		c.undecided(rule, "eof-token-position", "", "anchor (*Lexer).Next not found")
+		return
+	}
+	c.note("%s eof-token-position: no store to Lexer.tokenStart in Next dominates the return of the EOF token (the token then carries the previous token's start, an offset the line/column scan visits; len(src) is not one).", rule)
+	n := 0
+	for _, rc := range p.successResults(nx) {
+		if !strings.Contains(rc.Value, "Tag: EOF") {
+			continue
+		}
+		n++
+		moved := ""
+		for _, st := range storesToField(nx, "Lexer", "tokenStart", false) {
+			if dominatesInstr(st, rc.Ret) {
+				moved = p.InstrPos(st)
+			}
+		}
+		c.check(moved == "", rule, fmt.Sprintf("eof-token-position #%d", n), p.InstrPos(rc.Ret), "the EOF token keeps the last token's start", "Next records a new token start (at "+moved+") before it returns the EOF token: at the end of the text that offset is len(src), which the line/column scan never reaches — every error on the end of input is reported in column 1 of the last line")
+	}
+	if n == 0 {
+		c.undecided(rule, "eof-token-position", p.Pos(nx.Pos()), "no EOF token result found in Next")
 	}
 }
